@@ -2,6 +2,8 @@ import Gk.DrvRepo
 import Gk.DrvHook
 import Gk.DrvMut
 import Gk.DrvCron
+import Gk.DrvDisp
+import Gk.DrvPool
 open Gk
 
 /-- `gkdriver <family>`: reads trace lines on stdin, prints `L<n> DIFF …` / `L<n> MON …` lines and a
@@ -66,6 +68,36 @@ partial def loopCron (h : IO.FS.Stream) (s : DrvCron.S) (n hist nt bad : Nat) : 
     for o in outs do IO.println s!"L{n + 1} {o}"
     loopCron h s' (n + 1) hist nt (bad + outs.length)
 
+partial def loopDisp (h : IO.FS.Stream) (s : DrvDisp.S) (n hist bad : Nat) : IO Unit := do
+  let line ← h.getLine
+  if line.isEmpty then
+    IO.println s!"SUMMARY family=disp lines={n} histories={hist} nontrivial={hist} ops={s.ops} flagged={bad}"
+    return
+  let toks := Proto.tokens line
+  match toks with
+  | [] => loopDisp h s (n + 1) hist bad
+  | ["end"] => loopDisp h s (n + 1) (hist + 1) bad
+  | _ =>
+    let (req, resp) := Proto.splitArrow toks
+    let (s', outs) := DrvDisp.stepLine s req resp
+    for o in outs do IO.println s!"L{n + 1} {o}"
+    loopDisp h s' (n + 1) hist (bad + outs.length)
+
+partial def loopPool (h : IO.FS.Stream) (s : DrvPool.S) (n hist nt bad : Nat) : IO Unit := do
+  let line ← h.getLine
+  if line.isEmpty then
+    IO.println s!"SUMMARY family=pool lines={n} histories={hist} nontrivial={nt} ops={s.ops} flagged={bad}"
+    return
+  let toks := Proto.tokens line
+  match toks with
+  | [] => loopPool h s (n + 1) hist nt bad
+  | ["end"] => loopPool h s (n + 1) (hist + 1) (nt + (if s.nontrivial then 1 else 0)) bad
+  | _ =>
+    let (req, resp) := Proto.splitArrow toks
+    let (s', outs) := DrvPool.stepLine s req resp
+    for o in outs do IO.println s!"L{n + 1} {o}"
+    loopPool h s' (n + 1) hist nt (bad + outs.length)
+
 def main (args : List String) : IO UInt32 := do
   let stdin ← IO.getStdin
   match args with
@@ -73,4 +105,6 @@ def main (args : List String) : IO UInt32 := do
   | ["hook"] => loopHook stdin {} 0 0 0 0; return 0
   | ["mut"] => loopMut stdin {} 0 0 0 0; return 0
   | ["cron"] => loopCron stdin {} 0 0 0 0; return 0
+  | ["disp"] => loopDisp stdin {} 0 0 0; return 0
+  | ["pool"] => loopPool stdin {} 0 0 0 0; return 0
   | _ => IO.eprintln "usage: gkdriver repo"; return 2
